@@ -88,6 +88,13 @@ CLAIMED['C14'] = dict(
     note='Trusted: rustc MIR, the driver, the std::io::Read contract (also assumed of user readers that override read_exact). Readers violating that contract are out of scope.',
     technique='static analysis: who-may-call + error-discipline dataflow + provenance of error construction')
 
+CLAIMED['C04'] = dict(
+    category='other',
+    text='Totality of loading is a reachability question over a finite, enumerable set of program points. The check enumerates, from the dev-profile MIR (overflow checks and debug assertions on), every site in the call-graph cone of read_aseprite that can stop the program other than by returning - Assert terminators, panic!/assert! calls, panic-capable external callees (indexing, unwrap, chunks_exact...), allocation sinks, recursion, loops - and requires each to be discharged by an argument valid for all inputs: an interval (width) argument with inter-procedural parameter ranges and dominating constant guards, a dominating guard in the same body, or a table row whose structural obligation is re-verified on every run (e.g. dominated by check_chunk_bytes(..)? which rejects chunk_size < 6). No recursion in the cone; every loop is memory-bounded, bounded by a <=16-bit count, or performs a ?-propagated read each iteration; no Result is dropped. The five loader panics this inventory found on the pinned tree were repaired by fix: commits.',
+    design_ref='DESIGN.md section 4, C04 and section 5',
+    note='Trusted: rustc MIR, the driver, 64-bit usize, totality of external callees not on the panic-capable list (their distinct count is in the evidence), layer/slice counts fit u32. Allocation failure (abort) is judged under C12.',
+    technique='static analysis: panic-site inventory over the call-graph cone + interval (width) domain + dominance guards + obligation table + SCC/loop-progress classification')
+
 ALL = ['C%02d' % i for i in range(1, 20)]
 
 
